@@ -1,19 +1,27 @@
 #!/bin/bash
-# Apply every seeded change to /repo in turn (git apply), run the property's quick check, undo (git checkout -- .).
-# Never run while another check uses /repo.  Writes seeded/RESULTS.md
+# usage: tools/run_seeded.sh [seeded-id ...]
+# Apply every (or the named) seeded change to /repo in turn (git apply), run the property's quick check, undo
+# (git checkout -- .).  Never run while another check uses /repo.  Each result goes to seeded/<id>/result.txt;
+# seeded/RESULTS.md is regenerated from all of them.
 cd /verif
-out=seeded/RESULTS.md
-echo "# seeded changes applied to /repo one at a time (git -C /repo apply; ./check <P> quick; git -C /repo checkout -- .)" > $out
-echo "" >> $out; echo "| seeded | property | check exit | violation keys reported |" >> $out; echo "|---|---|---|---|" >> $out
-for d in seeded/*/; do
-  id=$(basename $d); prop=${id%%-*}
+ids="$@"; [ -z "$ids" ] && ids=$(ls -d seeded/*/ | xargs -n1 basename)
+for id in $ids; do
+  d=seeded/$id; prop=${id%%-*}
   [ -f $d/patch.diff ] || continue
   if ! git -C /repo diff --quiet; then echo "/repo is dirty, abort"; exit 3; fi
-  git -C /repo apply $PWD/$d/patch.diff || { echo "| $id | $prop | patch does not apply | |" >> $out; continue; }
+  if ! git -C /repo apply $PWD/$d/patch.diff 2>/dev/null; then
+    # the patch was written against an earlier commit: let git merge it (3-way) and leave only the working tree changed
+    if ! git -C /repo apply --3way $PWD/$d/patch.diff >/dev/null 2>&1; then git -C /repo checkout -- . ; git -C /repo reset -q; echo "$id | $prop | patch does not apply | " > $d/result.txt; echo "$id patch does not apply"; continue; fi
+    git -C /repo reset -q
+  fi
   res=$(./check $prop quick 2>&1); rc=$?
   git -C /repo checkout -- .
   keys=$(echo "$res" | grep -o "key=[^ ]*" | sort | uniq -c | sort -rn | head -4 | awk '{print $2" x"$1}' | tr '\n' ' ')
-  echo "| $id | $prop | $rc | $keys |" >> $out
+  echo "$id | $prop | $rc | $keys" > $d/result.txt
   echo "$id rc=$rc $keys"
 done
+out=seeded/RESULTS.md
+echo "# seeded changes applied to /repo one at a time (git -C /repo apply; ./check <P> quick; git -C /repo checkout -- .)" > $out
+echo "" >> $out; echo "| seeded | property | check exit | violation keys reported |" >> $out; echo "|---|---|---|---|" >> $out
+for d in seeded/*/; do [ -f $d/result.txt ] && echo "| $(cat $d/result.txt) |" >> $out; done
 git -C /repo status --short
